@@ -1,2 +1,827 @@
-// Package c20 binds the TLA+ specification of property C20 to the Go code.
+// Package c20 binds spec/http (MwChain.tla, LogMw.tla, CodeRec.tla) to
+// netutil/httputil: Wrap, LogMiddleware, CodeRecorderResponseWriter,
+// ServerHeaderMiddleware and PlainTextHandler.
+//
+// This file holds what the LogMiddleware bindings share: the requests the
+// clients send, the fake client-side http.ResponseWriter, the base
+// slog.Handler the middleware logs to, the inner handler that observes
+// everything the property names, the per-request oracle and the event tracer
+// for LogMwTrace.tla.  All of them can park in a gate (binding S).
 package c20
+
+import (
+	"context"
+	"fmt"
+	"io"
+	"log/slog"
+	"net/http"
+	"net/http/httptest"
+	"runtime"
+	"slices"
+	"sort"
+	"strconv"
+	"strings"
+	"sync"
+
+	"github.com/AdguardTeam/golibs/logutil/slogutil"
+	"github.com/AdguardTeam/golibs/netutil/httputil"
+
+	"verifharness/internal/sched"
+	"verifharness/internal/vh"
+)
+
+func init() {
+	vh.Register("c20", "replay-chain", replayChain)
+	vh.Register("c20", "record-chain", recordChain)
+	vh.Register("c20", "replay-coderec", replayCodeRec)
+	vh.Register("c20", "replay-sched", replaySched)
+	vh.Register("c20", "stress", stress)
+}
+
+// ------------------------------------------------------------ requests
+
+// op is one call of the inner handler on its ResponseWriter.
+type op struct {
+	Op string `json:"op"` // "wh" | "w"
+	C  int    `json:"c"`
+}
+
+// reqSpec is what the client of request rid sends.  Every field embeds rid.
+type reqSpec struct {
+	rid    int
+	method string
+	target string // request URI; contains an escape so that it differs from URL.Path
+	path   string
+	query  string
+	host   string
+	raddr  string
+	hdrs   http.Header
+	body   string
+}
+
+var methods = []string{http.MethodGet, http.MethodPost, http.MethodPut, http.MethodDelete, http.MethodPatch}
+
+func mkSpec(rid int) reqSpec {
+	s := reqSpec{rid: rid}
+	s.method = methods[rid%len(methods)]
+	s.path = fmt.Sprintf("/r/%d/a b", rid)
+	s.query = fmt.Sprintf("id=%d&z=%%41", rid)
+	s.target = fmt.Sprintf("/r/%d/a%%20b?%s", rid, s.query)
+	s.host = fmt.Sprintf("h%d.example.org", rid)
+	s.raddr = fmt.Sprintf("10.%d.%d.%d:%d", (rid>>16)&255, (rid>>8)&255, rid&255, 1024+rid%50000)
+	s.hdrs = http.Header{
+		"X-Rid":   {strconv.Itoa(rid)},
+		"X-Multi": {fmt.Sprintf("a%d", rid), fmt.Sprintf("b%d", rid)},
+	}
+	s.body = fmt.Sprintf("body-of-%d-%s", rid, strings.Repeat("x", rid%7))
+	return s
+}
+
+// ridOf extracts the request id embedded in one of the strings of mkSpec
+// (-1 when there is none).
+func ridOf(s string) int {
+	i := 0
+	for i < len(s) && (s[i] < '0' || s[i] > '9') {
+		i++
+	}
+	j := i
+	for j < len(s) && s[j] >= '0' && s[j] <= '9' {
+		j++
+	}
+	if i == j {
+		return -1
+	}
+	n, err := strconv.Atoi(s[i:j])
+	if err != nil {
+		return -1
+	}
+	return n
+}
+
+// raddrRid inverts mkSpec's RemoteAddr (-1 when malformed).
+func raddrRid(s string) int {
+	var a, b, c, d, p int
+	if n, _ := fmt.Sscanf(s, "%d.%d.%d.%d:%d", &a, &b, &c, &d, &p); n != 5 || a != 10 {
+		return -1
+	}
+	return b<<16 | c<<8 | d
+}
+
+// ridBody is the request body: a reader whose identity can be compared.
+type ridBody struct {
+	r      *strings.Reader
+	closed bool
+}
+
+func (b *ridBody) Read(p []byte) (int, error) { return b.r.Read(p) }
+func (b *ridBody) Close() error               { b.closed = true; return nil }
+
+type ctxKey struct{}
+
+// ------------------------------------------------------------ per-request state
+
+// logRec is one record as the base handler received it.
+type logRec struct {
+	Msg   string
+	Attrs []slog.Attr // handler attributes (read when the record was handled) + record attributes
+}
+
+// reqState is everything known about one request: what was sent, what the
+// inner handler observed, what the client writer received, which records the
+// base handler got.  In free-running mode it is touched only by the goroutine
+// that serves the request.
+type reqState struct {
+	slot int
+	spec reqSpec
+	ops  []op
+	ctx  context.Context // the client's context: carries this *reqState
+	body *ridBody
+	rec  *clientRec
+
+	phase      int // 0 new, 1 started seen, 2 in handler, 3 handler returned, 4 finished seen
+	finEnGated bool
+	runs       int // inner handler invocations
+	probes     int
+	readSoFar  []byte
+	made       []call // calls the inner handler made on its writer
+	recs       []logRec
+	problems   []string
+
+	// object identities (nil when not seen)
+	attrPtr *slog.Attr
+	attrRid int // request whose attributes the slice held when WithAttrs was called
+	reqPtr  *http.Request
+	rwPtr   *httputil.CodeRecorderResponseWriter
+
+	startedArid int // buffered for the trace
+	startedSeen bool
+	finCode     int // code of the finished record (set by check)
+}
+
+func (st *reqState) problem(format string, a ...any) {
+	if len(st.problems) < 8 {
+		st.problems = append(st.problems, fmt.Sprintf(format, a...))
+	}
+}
+
+// call is one call received by a client-side writer.
+type call struct {
+	Op   string `json:"op"`
+	C    int    `json:"c"`
+	Data string `json:"data,omitempty"`
+}
+
+// clientRec is the client-side http.ResponseWriter of one request.
+type clientRec struct {
+	e     *env
+	owner int
+	hdr   http.Header
+	calls []call
+}
+
+func (c *clientRec) Header() http.Header { return c.hdr }
+
+func (c *clientRec) WriteHeader(code int) {
+	c.e.gate("cw")
+	c.calls = append(c.calls, call{Op: "wh", C: code})
+}
+
+func (c *clientRec) Write(b []byte) (int, error) {
+	c.e.gate("cw")
+	c.calls = append(c.calls, call{Op: "w", Data: string(b)})
+	return len(b), nil
+}
+
+// status is what an HTTP client would see for the recorded calls (net/http:
+// the first WriteHeader wins, otherwise 200).
+func status(calls []call) int {
+	if len(calls) > 0 && calls[0].Op == "wh" {
+		return calls[0].C
+	}
+	return http.StatusOK
+}
+
+// allowedFin mirrors LogMw!AllowedFin: every code the invocation passed to
+// WriteHeader plus the status its client got.
+func allowedFin(ops []op) []int {
+	var made []call
+	set := map[int]bool{}
+	for _, o := range ops {
+		made = append(made, call{Op: o.Op, C: o.C})
+		if o.Op == "wh" {
+			set[o.C] = true
+		}
+	}
+	set[status(made)] = true
+	out := make([]int, 0, len(set))
+	for c := range set {
+		out = append(out, c)
+	}
+	sort.Ints(out)
+	return out
+}
+
+// ------------------------------------------------------------ environment
+
+// env is one run of one LogMiddleware: the scheduler (nil when free
+// running), the active gates and the tracer (nil in the race-hunting phase).
+type env struct {
+	s      *sched.Sched
+	gates  map[string]bool
+	tr     *tracer
+	retain bool
+	off    bool       // base handler disabled
+	yield  bool       // free running: yield the processor at every gate to shuffle the requests
+	col    *collector // loopback mode: records are collected, not routed by context
+
+	mu       sync.Mutex // anomalies only
+	unrouted int
+}
+
+func (e *env) gate(pt string) {
+	if e.s != nil {
+		if e.gates[pt] {
+			e.s.Gate(pt)
+		}
+		return
+	}
+	if e.yield {
+		runtime.Gosched()
+	}
+}
+
+func (e *env) newRequest(slot, rid int, ops []op) (st *reqState, r *http.Request) {
+	st = &reqState{slot: slot, spec: mkSpec(rid), ops: ops}
+	st.body = &ridBody{r: strings.NewReader(st.spec.body)}
+	st.rec = &clientRec{e: e, owner: rid, hdr: http.Header{}}
+	st.ctx = context.WithValue(context.Background(), ctxKey{}, st)
+	r = httptest.NewRequest(st.spec.method, st.spec.target, st.body).WithContext(st.ctx)
+	r.ContentLength = int64(len(st.spec.body))
+	r.Host = st.spec.host
+	r.RemoteAddr = st.spec.raddr
+	for k, v := range st.spec.hdrs {
+		r.Header[k] = slices.Clone(v)
+	}
+	return st, r
+}
+
+func stateOf(ctx context.Context) *reqState {
+	st, _ := ctx.Value(ctxKey{}).(*reqState)
+	return st
+}
+
+// ------------------------------------------------------------ base slog.Handler
+
+// rootHandler is the base handler given to NewLogMiddleware.  WithAttrs
+// returns a derived handler that either keeps the very slice it was given
+// (slog: "The Handler owns the slice: it may retain, modify or discard it")
+// or copies it, as the standard handlers do.
+type rootHandler struct{ e *env }
+
+type derived struct {
+	e       *env
+	attrs   []slog.Attr // retained or copied
+	more    []slog.Attr // from further WithAttrs calls
+	ptr     *slog.Attr
+	ridThen int
+	moved   bool
+}
+
+func (h *rootHandler) Enabled(context.Context, slog.Level) bool { return !h.e.off }
+func (h *rootHandler) WithGroup(string) slog.Handler            { return h }
+func (h *rootHandler) Handle(ctx context.Context, r slog.Record) error {
+	return (&derived{e: h.e}).Handle(ctx, r)
+}
+
+func (h *rootHandler) WithAttrs(attrs []slog.Attr) slog.Handler {
+	h.e.gate("withattrs")
+	d := &derived{e: h.e, ridThen: attrsRid(attrs)}
+	if len(attrs) > 0 {
+		d.ptr = &attrs[0]
+	}
+	if h.e.retain {
+		d.attrs = attrs
+	} else {
+		d.attrs = slices.Clone(attrs)
+	}
+	return d
+}
+
+func (d *derived) WithGroup(string) slog.Handler { return d }
+func (d *derived) WithAttrs(a []slog.Attr) slog.Handler {
+	n := *d
+	n.more = append(slices.Clone(d.more), a...)
+	return &n
+}
+
+func (d *derived) adopt(st *reqState) {
+	if st.attrPtr == nil && d.ptr != nil {
+		st.attrPtr, st.attrRid = d.ptr, d.ridThen
+	}
+}
+
+func (d *derived) Enabled(ctx context.Context, _ slog.Level) bool {
+	if d.e.off {
+		return false
+	}
+	if st := stateOf(ctx); st != nil {
+		d.adopt(st)
+		if st.phase == 3 && !st.finEnGated {
+			// The first Enabled after the inner handler returned: logFinished
+			// has not evaluated rw.code yet.
+			st.finEnGated = true
+			d.e.gate("readcode")
+		}
+	}
+	return true
+}
+
+func (d *derived) snapshot(r slog.Record) []slog.Attr {
+	out := make([]slog.Attr, 0, len(d.attrs)+len(d.more)+r.NumAttrs())
+	out = append(out, d.attrs...)
+	out = append(out, d.more...)
+	r.Attrs(func(a slog.Attr) bool { out = append(out, a); return true })
+	return out
+}
+
+func (d *derived) Handle(ctx context.Context, r slog.Record) error {
+	st := stateOf(ctx)
+	if st == nil && d.e.col != nil {
+		d.e.col.add(logRec{Msg: r.Message, Attrs: d.snapshot(r)})
+		return nil
+	}
+	if st == nil {
+		d.e.mu.Lock()
+		d.e.unrouted++
+		d.e.mu.Unlock()
+		return nil
+	}
+	d.adopt(st)
+	switch r.Message {
+	case "started":
+		before := attrsRid(d.attrs)
+		d.e.gate("started")
+		rec := logRec{Msg: r.Message, Attrs: d.snapshot(r)}
+		if a := attrsRid(d.attrs); a != before {
+			st.problem("the logger's attributes changed from request %d's to request %d's while the started record was being handled", before, a)
+		}
+		st.recs = append(st.recs, rec)
+		st.startedArid, st.startedSeen = attrsRid(rec.Attrs[:min(4, len(rec.Attrs))]), true
+		if st.phase == 0 {
+			st.phase = 1
+		}
+	case "finished":
+		before := attrsRid(d.attrs)
+		d.e.gate("finished")
+		rec := logRec{Msg: r.Message, Attrs: d.snapshot(r)}
+		if a := attrsRid(d.attrs); a != before {
+			st.problem("the logger's attributes changed from request %d's to request %d's while the finished record was being handled", before, a)
+		}
+		st.recs = append(st.recs, rec)
+		st.phase = 4
+		if d.e.tr != nil {
+			d.e.tr.finished(st, rec)
+		}
+	default:
+		st.recs = append(st.recs, logRec{Msg: r.Message, Attrs: d.snapshot(r)})
+	}
+	return nil
+}
+
+// attrsRid returns the request whose attributes the list carries: the id
+// embedded in host, raddr and request_uri among the first four attributes
+// (method carries no id); -1 when they disagree or are missing, 0 for an
+// empty list.
+func attrsRid(attrs []slog.Attr) int {
+	if len(attrs) == 0 {
+		return 0
+	}
+	rid := -2
+	for _, a := range attrs[:min(4, len(attrs))] {
+		var r int
+		switch a.Key {
+		case "host", "request_uri":
+			r = ridOf(a.Value.String())
+		case "raddr":
+			r = raddrRid(a.Value.String())
+		default:
+			continue
+		}
+		if rid == -2 {
+			rid = r
+		} else if rid != r {
+			return -1
+		}
+	}
+	if rid == -2 {
+		return -1
+	}
+	return rid
+}
+
+// ------------------------------------------------------------ inner handler
+
+// inner returns the handler wrapped by the middleware.  find tells it which
+// request it is serving: by closure (ground truth) or from the context of the
+// request it was given (what production code would do).
+func (e *env) inner(find func(r *http.Request) *reqState) http.Handler {
+	return http.HandlerFunc(func(w http.ResponseWriter, r *http.Request) {
+		st := find(r)
+		if st == nil {
+			e.mu.Lock()
+			e.unrouted++
+			e.mu.Unlock()
+			return
+		}
+		st.runs++
+		st.phase = 2
+		e.gate("hpre")
+		st.observe(e, "hpre", w, r)
+		w.Header().Set("X-Rid", strconv.Itoa(st.spec.rid))
+		for k, o := range st.ops {
+			if e.tr != nil {
+				e.tr.emit(map[string]any{"e": "op", "p": st.slot, "op": o.Op, "c": o.C})
+			}
+			n := len(st.rec.calls)
+			c := call{Op: o.Op, C: o.C}
+			switch o.Op {
+			case "wh":
+				w.WriteHeader(o.C)
+			default:
+				c.C = 0
+				c.Data = fmt.Sprintf("data-%d-%d;", st.spec.rid, k)
+				if m, err := io.WriteString(w, c.Data); err != nil || m != len(c.Data) {
+					st.problem("Write returned (%d, %v)", m, err)
+				}
+			}
+			st.made = append(st.made, c)
+			mine := len(st.rec.calls) == n+1 && st.rec.calls[n] == c
+			if !mine {
+				st.problem("call %d (%s %d) of request %d did not reach its own client writer", k+1, o.Op, o.C, st.spec.rid)
+			}
+			if e.tr != nil {
+				e.tr.emit(map[string]any{"e": "cw", "p": st.slot, "mine": mine})
+			}
+			st.observe(e, "", w, r)
+		}
+		e.gate("hpost")
+		st.observe(e, "hpost", w, r)
+		st.phase = 3
+	})
+}
+
+// observe re-reads everything property C20 lists and logs a probe through
+// the context logger.  ev names the trace event ("" = none).
+func (st *reqState) observe(e *env, ev string, w http.ResponseWriter, r *http.Request) {
+	sp := &st.spec
+	bad := func(what, got, want string) {
+		st.problem("inner handler of request %d read %s %q, its client sent %q", sp.rid, what, got, want)
+	}
+	seen := sp.rid
+	chk := func(what, got, want string) {
+		if got != want {
+			bad(what, got, want)
+			seen = -1
+		}
+	}
+	chk("method", r.Method, sp.method)
+	chk("URL", r.URL.String(), sp.target)
+	chk("URL.Path", r.URL.Path, sp.path)
+	chk("URL.RawQuery", r.URL.RawQuery, sp.query)
+	chk("RequestURI", r.RequestURI, sp.target)
+	chk("Host", r.Host, sp.host)
+	chk("RemoteAddr", r.RemoteAddr, sp.raddr)
+	chk("ContentLength", strconv.FormatInt(r.ContentLength, 10), strconv.Itoa(len(sp.body)))
+	if len(r.Header) != len(sp.hdrs) {
+		chk("header count", strconv.Itoa(len(r.Header)), strconv.Itoa(len(sp.hdrs)))
+	}
+	for k, v := range sp.hdrs {
+		chk("header "+k, strings.Join(r.Header[k], ","), strings.Join(v, ","))
+	}
+	if rb, _ := r.Body.(*ridBody); rb != st.body {
+		bad("body", "another request's body reader", "its own")
+		seen = -1
+	} else {
+		var buf [5]byte
+		var n int
+		if ev == "hpost" {
+			rest, _ := io.ReadAll(r.Body)
+			st.readSoFar = append(st.readSoFar, rest...)
+			chk("body", string(st.readSoFar), sp.body)
+		} else {
+			n, _ = r.Body.Read(buf[:])
+			st.readSoFar = append(st.readSoFar, buf[:n]...)
+			if !strings.HasPrefix(sp.body, string(st.readSoFar)) {
+				chk("body prefix", string(st.readSoFar), sp.body)
+			}
+		}
+	}
+	ctx := r.Context()
+	if got := stateOf(ctx); got != st {
+		g := "none"
+		if got != nil {
+			g = strconv.Itoa(got.spec.rid)
+		}
+		bad("context value", g, strconv.Itoa(sp.rid))
+		seen = -1
+	}
+
+	// The writer: the wrapper must lead to this request's client writer.
+	cl := -1
+	if wr, ok := w.(httputil.Wrapper); ok {
+		if c, _ := wr.Unwrap().(*clientRec); c != nil {
+			cl = c.owner
+		}
+	} else if c, _ := w.(*clientRec); c != nil {
+		cl = c.owner
+	}
+	if cl != sp.rid {
+		st.problem("the ResponseWriter given to request %d leads to the client of request %d", sp.rid, cl)
+	}
+	key := "X-Probe-" + strconv.Itoa(st.probes)
+	w.Header().Set(key, strconv.Itoa(sp.rid))
+	if st.rec.hdr.Get(key) == "" {
+		st.problem("a header set by the handler of request %d did not reach its own client", sp.rid)
+	}
+
+	rw, _ := w.(*httputil.CodeRecorderResponseWriter)
+	if st.reqPtr == nil {
+		st.reqPtr, st.rwPtr = r, rw
+	} else if st.reqPtr != r || st.rwPtr != rw {
+		st.problem("request / writer pointers changed during one invocation")
+	}
+
+	// The context logger.
+	lrid := -1
+	st.probes++
+	if l, ok := slogutil.LoggerFromContext(ctx); !ok {
+		st.problem("inner handler of request %d has no context logger", sp.rid)
+	} else if !e.off {
+		n := len(st.recs)
+		l.InfoContext(st.ctx, "probe", "probe_rid", sp.rid, "k", st.probes)
+		if len(st.recs) == n+1 {
+			lrid = attrsRid(st.recs[n].Attrs)
+		} else {
+			st.problem("the probe of request %d did not reach the base handler through its context logger", sp.rid)
+		}
+	}
+
+	if e.tr != nil && ev != "" {
+		e.tr.handler(st, ev, seen, lrid, cl)
+	}
+}
+
+// ------------------------------------------------------------ oracle
+
+// check applies the per-request oracle of C20 after the request is complete
+// and returns everything that is wrong (nil = fine).  policy reports whether
+// the finished code is allowed but not the one the code as written records.
+func (st *reqState) check(e *env, expectedFin int) (problems []string, policy bool) {
+	sp := &st.spec
+	p := slices.Clone(st.problems)
+	add := func(format string, a ...any) { p = append(p, fmt.Sprintf(format, a...)) }
+	if st.runs != 1 {
+		add("the inner handler ran %d times for request %d", st.runs, sp.rid)
+	}
+	// client side
+	if !slices.Equal(st.rec.calls, st.made) {
+		add("client of request %d received %v, its handler invocation wrote %v", sp.rid, st.rec.calls, st.made)
+	}
+	for k, v := range st.rec.hdr {
+		for _, x := range v {
+			if x != strconv.Itoa(sp.rid) {
+				add("client of request %d received header %s: %s", sp.rid, k, x)
+			}
+		}
+	}
+	if st.rec.hdr.Get("X-Rid") == "" && st.runs > 0 {
+		add("client of request %d did not receive the header its handler set", sp.rid)
+	}
+	// log records
+	if e.off {
+		if len(st.recs) != 0 {
+			add("records logged although the handler is disabled")
+		}
+		return p, false
+	}
+	want := map[string]string{"host": sp.host, "method": sp.method, "raddr": sp.raddr, "request_uri": sp.target}
+	nStarted, nFinished, nProbe := 0, 0, 0
+	for _, rec := range st.recs {
+		got := map[string]string{}
+		for _, a := range rec.Attrs {
+			if _, ok := want[a.Key]; ok {
+				if _, dup := got[a.Key]; dup {
+					add("%q record of request %d carries attribute %s twice", rec.Msg, sp.rid, a.Key)
+				}
+				got[a.Key] = a.Value.String()
+			}
+		}
+		for k, v := range want {
+			if g, ok := got[k]; !ok {
+				add("%q record of request %d lacks attribute %s", rec.Msg, sp.rid, k)
+			} else if g != v {
+				add("%q record of request %d carries %s=%q, the request has %q", rec.Msg, sp.rid, k, g, v)
+			}
+		}
+		switch rec.Msg {
+		case "started":
+			nStarted++
+		case "probe":
+			nProbe++
+			for _, a := range rec.Attrs {
+				if a.Key == "probe_rid" && a.Value.Int64() != int64(sp.rid) {
+					add("probe of request %d received among the records of request %d", a.Value.Int64(), sp.rid)
+				}
+			}
+		case "finished":
+			nFinished++
+			code, hasCode, hasElapsed := 0, false, false
+			for _, a := range rec.Attrs {
+				switch a.Key {
+				case "code":
+					hasCode = true
+					if a.Value.Kind() == slog.KindInt64 {
+						code = int(a.Value.Int64())
+					} else {
+						code = -1
+					}
+				case "elapsed":
+					hasElapsed = true
+				}
+			}
+			st.finCode = code
+			if !hasCode {
+				add("finished record of request %d has no code", sp.rid)
+			} else if al := allowedFin(st.ops); !slices.Contains(al, code) {
+				add("finished record of request %d reports code %d; its handler invocation did %s, allowed %v",
+					sp.rid, code, opsKey(st.ops), al)
+			} else if expectedFin != 0 && code != expectedFin {
+				policy = true
+			}
+			if !hasElapsed {
+				add("finished record of request %d has no elapsed attribute", sp.rid)
+			}
+		}
+	}
+	if nStarted != 1 || nFinished != 1 {
+		add("request %d: %d started and %d finished records (want one each)", sp.rid, nStarted, nFinished)
+	}
+	if nProbe != st.probes {
+		add("request %d: %d of %d probes arrived through its context logger", sp.rid, nProbe, st.probes)
+	}
+	return p, policy
+}
+
+func opsKey(ops []op) string {
+	if len(ops) == 0 {
+		return "none"
+	}
+	var b strings.Builder
+	for i, o := range ops {
+		if i > 0 {
+			b.WriteByte(',')
+		}
+		if o.Op == "wh" {
+			fmt.Fprintf(&b, "WH%d", o.C)
+		} else {
+			b.WriteString("W")
+		}
+	}
+	return b.String()
+}
+
+// ------------------------------------------------------------ tracer
+
+// tracer writes the totally ordered event log LogMwTrace.tla validates and
+// checks the ownership invariant directly on the pointer identities.
+type tracer struct {
+	mu    sync.Mutex
+	t     *vh.Trace
+	attrs map[*slog.Attr]int
+	reqs  map[*http.Request]int
+	rws   map[*httputil.CodeRecorderResponseWriter]int
+	owner map[string]int // "<pool><id>" -> rid of the live owner
+	bad   []string
+}
+
+func newTracer(t *vh.Trace) *tracer {
+	tr := &tracer{t: t}
+	tr.reset(false)
+	return tr
+}
+
+// reset starts a new middleware instance (fresh pools).
+func (tr *tracer) reset(emit bool) {
+	tr.mu.Lock()
+	defer tr.mu.Unlock()
+	tr.attrs = map[*slog.Attr]int{}
+	tr.reqs = map[*http.Request]int{}
+	tr.rws = map[*httputil.CodeRecorderResponseWriter]int{}
+	tr.owner = map[string]int{}
+	if emit {
+		tr.t.Emit(map[string]any{"e": "reset"})
+	}
+}
+
+func (tr *tracer) emit(ev map[string]any) {
+	tr.mu.Lock()
+	tr.t.Emit(ev)
+	tr.mu.Unlock()
+}
+
+func dense[K comparable](m map[K]int, k K) int {
+	if id, ok := m[k]; ok {
+		return id
+	}
+	id := len(m) + 1
+	m[k] = id
+	return id
+}
+
+func (tr *tracer) acquire(pool string, id, rid int) {
+	k := pool + strconv.Itoa(id)
+	if o := tr.owner[k]; o != 0 && o != rid {
+		tr.bad = append(tr.bad, fmt.Sprintf("pooled %s object #%d is used by the live requests %d and %d at the same time", pool, id, o, rid))
+	}
+	tr.owner[k] = rid
+}
+
+// handler logs hpre (preceded by everything that became known by now: the
+// three Gets and the started record) or hpost.
+func (tr *tracer) handler(st *reqState, ev string, seen, lrid, cl int) {
+	tr.mu.Lock()
+	defer tr.mu.Unlock()
+	p := st.slot
+	if ev == "hpre" {
+		a, q, w := 0, 0, 0
+		if st.attrPtr != nil {
+			a = dense(tr.attrs, st.attrPtr)
+		}
+		if st.reqPtr != nil {
+			q = dense(tr.reqs, st.reqPtr)
+		}
+		if st.rwPtr != nil {
+			w = dense(tr.rws, st.rwPtr)
+		}
+		tr.acquire("attr", a, st.spec.rid)
+		tr.acquire("req", q, st.spec.rid)
+		tr.acquire("rw", w, st.spec.rid)
+		tr.t.Emit(map[string]any{"e": "getattr", "p": p, "o": a})
+		tr.t.Emit(map[string]any{"e": "withattrs", "p": p, "arid": st.attrRid})
+		tr.t.Emit(map[string]any{"e": "getreq", "p": p, "o": q})
+		tr.t.Emit(map[string]any{"e": "getrw", "p": p, "o": w})
+		tr.t.Emit(map[string]any{"e": "started", "p": p, "arid": st.startedArid})
+	}
+	tr.t.Emit(map[string]any{"e": ev, "p": p, "seen": seen, "lrid": lrid, "cl": cl})
+}
+
+// finished is called from inside the base handler, i.e. before the deferred
+// Puts: the ownership of the three objects ends here.
+func (tr *tracer) finished(st *reqState, rec logRec) {
+	tr.mu.Lock()
+	defer tr.mu.Unlock()
+	p := st.slot
+	code := -1
+	for _, a := range rec.Attrs {
+		if a.Key == "code" && a.Value.Kind() == slog.KindInt64 {
+			code = int(a.Value.Int64())
+		}
+	}
+	arid := attrsRid(rec.Attrs[:min(4, len(rec.Attrs))])
+	tr.t.Emit(map[string]any{"e": "setimpl", "p": p})
+	tr.t.Emit(map[string]any{"e": "readcode", "p": p, "c": code})
+	tr.t.Emit(map[string]any{"e": "finished", "p": p, "c": code, "arid": arid})
+	tr.t.Emit(map[string]any{"e": "putrw", "p": p})
+	tr.t.Emit(map[string]any{"e": "putreq", "p": p})
+	tr.t.Emit(map[string]any{"e": "putattr", "p": p})
+	for k, o := range tr.owner {
+		if o == st.spec.rid {
+			delete(tr.owner, k)
+		}
+	}
+}
+
+func (tr *tracer) begin(st *reqState) {
+	ops := st.ops
+	if ops == nil {
+		ops = []op{}
+	}
+	tr.emit(map[string]any{"e": "begin", "p": st.slot, "rid": st.spec.rid, "ops": ops})
+}
+
+func (tr *tracer) end(st *reqState) {
+	tr.emit(map[string]any{"e": "end", "p": st.slot, "calls": len(st.rec.calls)})
+}
+
+// newMw builds the middleware under test on a fresh base handler.
+func (e *env) newMw() *httputil.LogMiddleware {
+	return httputil.NewLogMiddleware(slog.New(&rootHandler{e: e}), slog.LevelInfo)
+}
+
+func (tr *tracer) takeBad() []string {
+	tr.mu.Lock()
+	defer tr.mu.Unlock()
+	b := tr.bad
+	tr.bad = nil
+	return b
+}
